@@ -11,7 +11,8 @@ import RpgpModel.S2k
 * `sum16`               `crypto/checksum.rs  SimpleChecksum` / `calculate_simple`
 * `sessionKeyPlain`     `packet/public_key_encrypted_session_key.rs  prepare_session_key_for_encryption`
 -/
-namespace Rpgp
+namespace Rpgp.Sym
+open Rpgp
 
 /-- `checksum::SimpleChecksum`: sum of all octets `& 0xffff` -/
 def sum16 (bs : Bytes) : Nat := bs.foldl (fun acc b => (acc + b.toNat) % (Gen.sum16Mask + 1)) 0
@@ -57,7 +58,7 @@ def unpad (d : Bytes) : Option Bytes :=
   else if d = [] then none
   else
     let padv := (d.getLastD 0).toNat
-    if padv > len then none
+    if padv = 0 ∨ padv > len then none
     else
       let unpaddedLen := len - padv
       if (d.drop unpaddedLen).any (fun b => b ≠ d.getLastD 0) then none
@@ -134,4 +135,4 @@ def kekPlan (eph rcpt z : Bytes) : PExpr :=
 def wrapPlan (eph rcpt z plain : Bytes) : PExpr := .kw (kekPlan eph rcpt z) (.lit plain)
 
 end X448
-end Rpgp
+end Rpgp.Sym
